@@ -47,7 +47,7 @@ FIELDS = {
 
 
 SESSION_FIELDS = {"toggle": ("e", "g", "m"), "setargs": ("e", "g", "m", "args"),
-                  "resched": ("e", "times", "start", "nd"), "restart": ("e",)}
+                  "resched": ("e", "times", "start", "nd"), "restart": ("e",), "rewrite": ("e", "stored")}
 
 
 def strip(trace: dict, prop: str) -> dict:
